@@ -16,7 +16,7 @@ theorem ctx?_none_of_not_mem {f : Forest} {x : Nat} (h : x ∉ f.allHandles) : f
   unfold allHandles
   obtain ⟨a, b, hab⟩ := List.append_of_mem hk
   rw [hab]
-  simp only [fi_handlesList_append, handlesList_cons, List.mem_append]
+  simp only [fi_handlesList_append, fi_handlesList_cons, List.mem_append]
   refine Or.inr (Or.inl ?_)
   rw [fi_handles_eq]; exact List.mem_cons_of_mem _ hc
 
